@@ -198,7 +198,7 @@ def main():
         REVERTS = {"D23": ("C01", "D23"), "D24": ("C01", "D24"), "D25": ("C05", "D25"), "D26": ("C05", "D26"), "D27": ("C01", "D27"),
                    "D28": ("C05", "D28"), "D29": ("C01", "D29"), "D30": ("C05", "D30"), "D31": ("C01", "D31"), "D32": ("C01", "D32"),
                    "D34": ("C01", "D34"), "D35": ("C01", "D35"), "D36": ("C04", "exit-without-finalize"), "D37": ("C03", "plain-sub"),
-                   "D38": ("C01", "try_compile_to_table|arith"), "D39": ("C03", "D39"), "D40": ("C01", "patch|arith:patch_ref"), "D42": ("C06", "D42")}
+                   "D38": ("C01", "try_compile_to_table|arith"), "D39": ("C03", "D39"), "D40": ("C01", "patch|arith:patch_ref"), "D42": ("C06", "D42"), "D44": ("C12", "i16-saturating")}
         for d, (prop, key) in sorted(REVERTS.items()):
             if os.path.exists(os.path.join(V, "mutants", "reverts", "revert_%s.patch" % d)):
                 idx.append({"name": "reverts/revert_%s" % d, "property": prop, "expect": key})
